@@ -492,6 +492,26 @@ def _mutable_result(m: FunctionInfo) -> str:
 
 
 # ------------------------------------------------------------------------------------------------
+def in_factory(ctx: Ctx, f: FunctionInfo) -> bool:
+    """f belongs to the Sid factory: the factory module, or a function the factory function delegates the construction
+    to (wherever it lives) and its private helpers"""
+    fam = getattr(ctx, "_factory_family", None)
+    if fam is None:
+        fac = ctx.cg.factory_of(ctx.p.cls("spil.sid.sid.Sid"))
+        fam = set()
+        mods = {"spil.sid.core.sid_factory"}
+        if fac is not None:
+            fam.add(fac.qualname)
+            mods.add(fac.module.name)
+            for cs in ctx.cg.sites.get(fac.qualname, []):
+                for t in cs.targets:
+                    if t.module.kind == "library" and any(isinstance(n, ast.keyword) and n.arg == "from_factory" for n in ast.walk(t.node)):
+                        fam.add(t.qualname)
+                        mods.add(t.module.name)
+        ctx._factory_family = fam = (fam, mods)
+    return f.qualname in fam[0] or f.module.name in fam[1]
+
+
 def rule_init(ctx: Ctx) -> RuleResult:
     res = RuleResult("R-INIT")
     init = ctx.p.function("spil.sid.sid.TypedSid._init")
@@ -523,7 +543,7 @@ def rule_init(ctx: Ctx) -> RuleResult:
     for cs in sites:
         f = cs.caller
         site = f"{f.qualname}: `{norm(cs.node)[:80]}`"
-        if f.module.name != "spil.sid.core.sid_factory":
+        if not in_factory(ctx, f):
             res.violation([f.qualname, "_init outside the factory"], f"{f.short} calls _init outside the Sid factory module", f.relpath, cs.lineno)
             continue
         recv = cs.node.func.value if isinstance(cs.node.func, ast.Attribute) else None
@@ -560,8 +580,7 @@ def rule_init(ctx: Ctx) -> RuleResult:
         else:
             res.violation([f.qualname, norm(cs.node.func), "typestate"], f"{f.short}: `{norm(cs.node)[:80]}` - {why}", f.relpath, cs.lineno)
     # every fresh instance is initialised before it is returned
-    fac_mod = ctx.p.module("spil.sid.core.sid_factory")
-    for f in fac_mod.functions.values():
+    for f in [g for g in ctx.p.iter_functions(kinds=("library",)) if in_factory(ctx, g)]:
         flow = flow_of(f.node)
         cfg = cfg_of(f.node)
         for n in own_nodes(f.node):
@@ -622,7 +641,7 @@ def _init_sites(ctx: Ctx):
     out = []
     for cs in ctx.cg.callers.get(init.qualname, []):
         f = cs.caller
-        if f.module.name != "spil.sid.core.sid_factory":
+        if not in_factory(ctx, f):
             continue
         args = dict(bind_args(init, cs.node))
         forwards = args and all(isinstance(v, ast.Name) and v.id in f.params for v in args.values()) and f.name.startswith("_")
